@@ -20,16 +20,21 @@ RULE = ("announced mechanism lists: random subsets/orders of {DIGEST-MD5, PLAIN,
         "LOGIN2} incl. the empty list and a missing SASL capability "
         "x authmech in {None, DIGEST-MD5, PLAIN, LOGIN, OAUTHBEARER, X-UNKNOWN} x credentials "
         "(ASCII, non-ASCII, comma, equals sign, double quote, space, long; NUL-free) x "
-        "authorisation id {empty, set} x server verdict {accept, NO, BYE}. Non-trivial = a "
+        "authorisation id {empty, set} x server verdict {accept, NO, BYE}; a quarter of the "
+        "connects use STARTTLS, where the list above is the one announced after the handshake "
+        "and the clear-text announcement is the same, another, the full or no list. Non-trivial = a "
         "mechanism was expected to be used; distinct = distinct configurations.")
 ASSUMPTIONS = [
     "R-MS's SASL server sides and decoders (rv/msmodel.py) are the oracle",
     "OAUTHBEARER: when an authorisation id is given, either identity in a= is accepted",
     "the server accepts exactly the credentials it is configured with",
 ]
-FLOORS = {"quick": {"connects": 18000, "mech:PLAIN": 600, "mech:LOGIN": 600,
+FLOORS = {"quick": {"connects": 18000, "connects-with-starttls": 3500,
+                    "starttls:no-SASL-line-after-handshake": 200, "starttls:lists-differ": 1500, "mech:PLAIN": 600, "mech:LOGIN": 600,
                     "mech:OAUTHBEARER": 600, "mech:DIGEST-MD5": 600, "no-mechanism": 600},
-          "thorough": {"connects": 1800000, "mech:PLAIN": 100000, "mech:LOGIN": 100000,
+          "thorough": {"connects": 1800000, "connects-with-starttls": 350000,
+                       "starttls:no-SASL-line-after-handshake": 20000,
+                       "starttls:lists-differ": 150000, "mech:PLAIN": 100000, "mech:LOGIN": 100000,
                        "mech:OAUTHBEARER": 100000, "mech:DIGEST-MD5": 100000,
                        "no-mechanism": 100000}}
 SHARD_TIMEOUT = {"quick": 600, "thorough": 3000}
@@ -91,10 +96,29 @@ def run_shard(tier, shard, res: Result):
         faults = {}
         if verdict in ("NO", "BYE"):
             faults["auth-verdict"] = verdict
-        srv = ms.Server(users=users, sasl=announced, faults=faults, starttls=False,
-                        encodings=rng.choice(["quoted", "literal", "mixed"]))
-        sess = mslab.Session(srv)
-        out = sess.call("connect", login, pw, authz_id=authz, authmech=authmech)
+        starttls = rng.random() < 0.25
+        if starttls:
+            # what counts is what the server announces once TLS is up; before that it may
+            # have announced anything (the same list, another one, nothing)
+            res.count("connects-with-starttls")
+            post = announced
+            k2 = rng.choice([0, 1, 2, 4])
+            pre = rng.choice([post, rng.sample(ALL, k2), list(IMPLEMENTED), None])
+            if post is None:
+                res.count("starttls:no-SASL-line-after-handshake")
+            if pre != post:
+                res.count("starttls:lists-differ")
+            srv = ms.Server(users=users, sasl=pre, post_tls_caps="absent" if post is None else post,
+                            faults=faults, starttls=True,
+                            encodings=rng.choice(["quoted", "literal", "mixed"]))
+            sess = mslab.Session(srv)
+            out = sess.call("connect", login, pw, authz_id=authz, authmech=authmech,
+                            starttls=True)
+        else:
+            srv = ms.Server(users=users, sasl=announced, faults=faults, starttls=False,
+                            encodings=rng.choice(["quoted", "literal", "mixed"]))
+            sess = mslab.Session(srv)
+            out = sess.call("connect", login, pw, authz_id=authz, authmech=authmech)
         want = expected_mech(announced, authmech)
         res.count("connects")
         res.count("mech:%s" % want if want else "no-mechanism")
@@ -102,7 +126,8 @@ def run_shard(tier, shard, res: Result):
         attempts = [e for e in srv.log if e[0] == "auth-attempt"]
         creds = [e for e in srv.log if e[0] == "auth-creds"]
         sent = sess.wire.sent()
-        wit = {"announced": announced, "authmech": authmech, "login": login, "password": pw,
+        wit = {"announced": announced, "starttls": starttls,
+               "announced_before_tls": srv.sasl if starttls else None, "authmech": authmech, "login": login, "password": pw,
                "authz_id": authz, "verdict": verdict, "outcome": repr(out)[:200],
                "attempts": [a[1] for a in attempts], "sent": sent[:300],
                "server_violations": srv.violations[:3]}
